@@ -379,6 +379,55 @@ func staleClients(oldText, newText string, newCfg *config.Config) string {
 	return ""
 }
 
+// failedReload: a long-running process reloads old -> new and the LAST reload callback fails (in a sidecar that is the
+// Prometheus reload; the scrape manager has switched by then).  Whatever hash the process reports afterwards must be
+// the hash of the content its scrape clients really run: "in sync" means running the coordinator's configuration.
+func failedReload(oldText, newText, oldHash, newHash string, oldCfg, newCfg *config.Config) string {
+	long, freshOld, freshNew := kscrape.New(true, quiet), kscrape.New(true, quiet), kscrape.New(true, quiet)
+	cm, cmO, cmN := prom.NewConfigManager(), prom.NewConfigManager(), prom.NewConfigManager()
+	fail := false
+	cm.AddReloadCallbacks(long.ApplyConfig, func(*prom.ConfigInfo) error {
+		if fail {
+			return fmt.Errorf("prometheus reload failed (scripted): server returned HTTP status 500")
+		}
+		return nil
+	})
+	cmO.AddReloadCallbacks(freshOld.ApplyConfig)
+	cmN.AddReloadCallbacks(freshNew.ApplyConfig)
+	if cm.ReloadFromRaw([]byte(oldText)) != nil || cmO.ReloadFromRaw([]byte(oldText)) != nil || cmN.ReloadFromRaw([]byte(newText)) != nil {
+		return ""
+	}
+	fail = true
+	if cm.ReloadFromRaw([]byte(newText)) == nil {
+		return ""
+	}
+	reported := cm.ConfigInfo().ConfigHash
+	var ref *kscrape.Manager
+	var refCfg *config.Config
+	switch reported {
+	case newHash:
+		ref, refCfg = freshNew, newCfg
+	case oldHash:
+		ref, refCfg = freshOld, oldCfg
+	default:
+		return fmt.Sprintf("after a reload whose last callback failed the process reports hash %s, which is neither the old (%s) nor the new (%s) content's", reported, oldHash, newHash)
+	}
+	for _, sc := range refCfg.ScrapeConfigs {
+		if sc.HTTPClientConfig.ProxyURL.URL != nil {
+			continue
+		}
+		l, f := presented(long, sc.JobName), presented(ref, sc.JobName)
+		if l != f {
+			which := "old"
+			if reported == newHash {
+				which = "new"
+			}
+			return fmt.Sprintf("after a reload whose last callback failed the process reports the hash of the %s content, but the scrape client of job %q presents %s where a process running that content presents %s", which, sc.JobName, l, f)
+		}
+	}
+	return ""
+}
+
 func applyExt(s *Spec, how string) {
 	switch how {
 	case "add":
@@ -522,6 +571,12 @@ func runC16(rec *vkit.Recorder, c *c16Case, t *rapid.T) []vkit.Violation {
 				add("C16/scrape-client-not-reloaded/"+name, "after reloading to the new content (edit %q) %s", name, diff)
 			}
 			cls = append(cls, "scrape-clients-compared")
+			if h1 != h0 {
+				if diff := failedReload(text0, txt, h0, h1, cfg0, cfg1); diff != "" {
+					add("C16/reported-hash-is-not-what-runs/"+name, "edit %q: %s", name, diff)
+				}
+				cls = append(cls, "reload-with-failing-last-callback")
+			}
 		}
 		if h1 == h0 {
 			add("C16/edit-not-detected/"+name, "edit %q changes the loaded configuration but not the hash (%s)\n--- before\n%s\n--- after\n%s", name, h0, text0, txt)
